@@ -426,6 +426,56 @@ func doubleStopScenario(how string, bound int) e1.Scenario {
 	return e1.Scenario{Name: "double-stop/" + how, Bound: bound, Body: body, Check: check, Opt: vs.Options{Horizon: 3000}}
 }
 
+// slowCallbackScenario: the application's OnEvent takes long (seconds, minutes - far longer than any
+// grace period a shutdown path might allow itself). Two events are read before the stop signal; the
+// callback is busy with the first. However long it takes, the listener neither gives up on the
+// second event nor returns while the library still has work in flight: both events are delivered
+// once, nothing panics, Listen returns nil.
+func slowCallbackScenario(delay time.Duration) e1.Scenario {
+	var l1 *slowListener
+	var ret error
+	var done bool
+	body := func() {
+		l1 = &slowListener{delay: delay}
+		done, ret = false, nil
+		c1 := l1
+		vs.Net().Env = &farm.Farm{}
+		u := uhppote.NewUHPPOTE(types.BindAddr{}, types.BroadcastAddr{}, types.ListenAddrFrom(netip.MustParseAddr("0.0.0.0"), lport), T, nil, false)
+		for k := 0; k < 2; k++ {
+			d := datagram("valid", k)
+			vs.After(T/10, func() { vs.Net().DeliverUDP("192.168.1.100:60000", fmt.Sprintf("192.168.1.2:%d", lport), d) })
+		}
+		q := make(chan os.Signal, 1)
+		vs.GoNamed("stopper", func() { vs.Sleep(2 * T / 10); vs.Send(q, os.Signal(os.Interrupt)) })
+		ret = u.Listen(c1, q)
+		done = true
+	}
+	check := func(e *vs.Exec) (string, []e1.Viol) {
+		viols := e1.Generic(e)
+		if e.Abort != "" {
+			return e.Abort, viols
+		}
+		what := fmt.Sprintf("OnEvent takes %v per event, two events read before the stop signal", delay)
+		if !done || ret != nil {
+			viols = append(viols, e1.Viol{Key: "slow-callback/listener-did-not-return-nil", What: fmt.Sprintf("returned=%v err=%v (%s)", done, ret, what)})
+		}
+		ev := 0
+		for _, c := range l1.calls {
+			if c.kind == "event" {
+				ev++
+			}
+		}
+		if ev != 2 {
+			viols = append(viols, e1.Viol{Key: "slow-callback/events", What: fmt.Sprintf("%d events delivered, 2 were read (%s)", ev, what)})
+		}
+		if open := vs.Net().OpenSockets(); len(open) > 0 {
+			viols = append(viols, e1.Viol{Key: "slow-callback/socket-leak", What: fmt.Sprint(open) + " (" + what + ")"})
+		}
+		return fmt.Sprintf("slow-callback ret=%v events=%d", ret == nil, ev), viols
+	}
+	return e1.Scenario{Name: fmt.Sprintf("slow-callback/%v", delay), Bound: 1, Body: body, Check: check, Opt: vs.Options{Horizon: 3000}}
+}
+
 // stopTokenScenario: "the listener stops when signalled" - whatever is delivered on the stop
 // channel: any os.Signal value (signals an application may receive without meaning to quit
 // included), a nil value, or the channel being closed; through a quiet and a debug client.
@@ -635,6 +685,10 @@ func main() {
 			b = 2
 		}
 		scenarios = append(scenarios, doubleStopScenario(how, b))
+	}
+	// callbacks that take seconds, minutes, hours
+	for _, d := range []time.Duration{3 * time.Second, 6 * time.Second, 31 * time.Second, 61 * time.Second, 11 * time.Minute, 25 * time.Hour} {
+		scenarios = append(scenarios, slowCallbackScenario(d))
 	}
 	// every kind of stop token, quiet and debug client
 	{
